@@ -11,6 +11,7 @@ from __future__ import annotations
 from typing import Any
 
 from checks import _e1_common as common
+from vkit.harness import case_rng
 
 PROPERTY = "C02"
 LEVEL = "exploration"
@@ -51,11 +52,104 @@ def plan(tier: str) -> dict[str, Any]:
 
 
 def gen_case(idx: int, seed: int, tier: str) -> Any:
+    if idx % 40 == 11:
+        # *crowded* tables: a parent that holds 64-300 resources and factories when its child is created
+        rng = case_rng(PROPERTY, seed, idx)
+        return {"kind": "crowded", "backend": rng.choice(["asyncio", "trio"]), "factories": rng.choice([0, 10, 64, 65, 130, 300]),
+                "resources": rng.choice([0, 10, 64, 65, 130, 300]), "child_adds_own_first": rng.random() < 0.5}
     return {"seed": f"{seed}:{idx}", "want_sample": idx % 97 == 0,
             "weights": {"construct": 14, "enter": 8, "leave": 5, "add_resource": 22, "add_factory": 12, "lookup": 36, "race": 0}}
 
 
+async def crowded_scenario(case: dict[str, Any], out: dict[str, Any]) -> None:
+    from asphalt.core import Context, ResourceNotFound
+
+    class Thing:
+        def __init__(self, tag: str) -> None:
+            self.tag = tag
+
+    class Other:
+        pass
+
+    V = out["violations"]
+
+    def bad(key: str, msg: str) -> None:
+        if not any(v["key"] == key for v in V):
+            V.append({"key": key, "msg": msg, "witness": {"case": case}})
+
+    async def all_paths(ctx: Any, type_: Any, name: str) -> list[Any]:
+        got: list[Any] = [ctx.get_resource_nowait(type_, name, optional=True), await ctx.get_resource(type_, name, optional=True),
+                          ctx.get_resources(type_).get(name)]
+        try:
+            got.append(ctx.get_resource_nowait(type_, name))
+        except ResourceNotFound:
+            got.append(None)
+        return got
+
+    nf, nr = case["factories"], case["resources"]
+    async with Context() as parent:
+        statics = {}
+        for i in range(nr):
+            statics[i] = Thing(f"static{i}")
+            parent.add_resource(statics[i], f"s{i}")
+        for i in range(nf):
+            parent.add_resource_factory(lambda i=i: Thing(f"made{i}"), f"f{i}", types=[Thing])
+        child = Context()  # its view of the parent is fixed now
+        late_static, late_other = Thing("late-static"), Other()
+        async with child:
+            if case["child_adds_own_first"]:
+                child.add_resource_factory(lambda: Thing("child-own"), "own", types=[Thing])
+                child.add_resource(Other(), "own")
+            parent.add_resource(late_static, "late")
+            parent.add_resource_factory(lambda: Thing("late-made"), "late_f", types=[Thing])
+            parent.add_resource(late_other)
+            if not case["child_adds_own_first"]:
+                child.add_resource_factory(lambda: Thing("child-own"), "own", types=[Thing])
+                child.add_resource(Other(), "own")
+            grandchild = Context()
+            async with grandchild:
+                for who, ctx in (("child", child), ("grandchild", grandchild)):
+                    for type_, name in ((Thing, "late"), (Thing, "late_f"), (Other, "default")):
+                        seen = await all_paths(ctx, type_, name)
+                        if any(x is not None for x in seen):
+                            bad("visible[late-add-on-parent]", f"with {nr} resources and {nf} factories in the parent when the child was created: what the parent got afterwards "
+                                                               f"(({type_.__name__}, {name!r})) is visible in the {who}: {seen}")
+                    # what was there when the child was created is visible: the static resources by identity, the factories by a product
+                    # of the asking context's own
+                    for i in sorted({0, nr // 2, nr - 1} & set(range(nr))):
+                        seen = await all_paths(ctx, Thing, f"s{i}")
+                        if any(x is not statics[i] for x in seen):
+                            bad("visible[inherited]", f"static resource s{i} of the parent (of {nr}) is not what the {who} sees: {seen}")
+                    for i in sorted({0, nf // 2, nf - 1} & set(range(nf))):
+                        seen = await all_paths(ctx, Thing, f"f{i}")
+                        if any(not isinstance(x, Thing) or x.tag != f"made{i}" or x is not seen[0] for x in seen):
+                            bad("visible[inherited,gen]", f"factory f{i} of the parent (of {nf}) does not serve the {who}: {[getattr(x, 'tag', x) for x in seen]}")
+            # what the child added is its own: the parent (and its table) knows nothing of it
+            for type_, name in ((Thing, "own"), (Other, "own")):
+                seen = await all_paths(parent, type_, name)
+                if any(x is not None for x in seen):
+                    bad("visible[child-add-in-parent]", f"what the child added (({type_.__name__}, {name!r})) is visible in the parent: {seen}")
+        seen = await all_paths(parent, Thing, "late")
+        if any(x is not late_static for x in seen):
+            bad("visible[own]", f"the parent does not see its own late resource: {seen}")
+    c = out["counters"]
+    c["crowded_parents"] = 1
+    if nf > 64:
+        c["crowded_parents_with_more_than_64_factories"] = 1
+    if nr > 64:
+        c["crowded_parents_with_more_than_64_resources"] = 1
+
+
 def run_case(case: Any) -> dict[str, Any]:
+    if case.get("kind") == "crowded":
+        from vkit.vtime import VirtualDeadlock, run_virtual
+
+        out: dict[str, Any] = {"violations": [], "counters": {}}
+        try:
+            run_virtual(case["backend"], crowded_scenario, case, out)
+        except VirtualDeadlock as e:
+            out["violations"].append({"key": "history-deadlock", "msg": str(e), "witness": {"case": case}})
+        return {"violations": out["violations"], "sig": ("crowded", repr(sorted(case.items()))), "nontrivial": True, "counters": out["counters"], "sample": None}
     return common.run_case(PROPERTY, case)
 
 
